@@ -20,8 +20,8 @@ open Wz
 """
 
 
-def emit(topic, specs, imports=()):
-    parts = []
+def emit(topic, specs, imports=(), extra=""):
+    parts = [extra] if extra else []
     srcs = []
     for sp in specs:
         parts.append(py2lean.translate(sp, REPO))
@@ -78,3 +78,35 @@ HOST_IS_TRUSTED = Spec(
 @generator("PyFns_Host")
 def gen_host():
     return emit("Host", [STRIP_PORT, HOST_IS_TRUSTED])
+
+
+# --------------------------------------------------------------------------
+# C14: paths
+
+SAFE_JOIN = Spec(
+    module="security.py",
+    qualname="safe_join",
+    name="safe_join",
+    # `_os_alt_seps` (a module constant computed from os.sep / os.path.altsep at import time) is a
+    # parameter, as in the model's `safeJoinWith`; Props/C14T instantiates it with the regenerated value
+    opaque=[("os_alt_seps", "List Pre.Str")],
+    consts={"_os_alt_seps": ("os_alt_seps", "List Str")},
+    params=[("directory", "Str"), ("*pathnames", "List Str")],
+    result="Option Str",
+    raises=True,  # posixpath.join(*parts) raises TypeError for an empty `parts`: proved impossible
+    # os.path is posixpath on the platform the models are generated for (checked: `os_path_is_posixpath`)
+    calls={"os.path.isabs": Fn("Wz.Paths.isabs", [STR], BOOL)},
+)
+
+
+@generator("PyFns_Paths")
+def gen_paths():
+    import os as _os
+    import posixpath as _pp
+
+    extra = f"""/-- `os.path is posixpath` on the platform this file was generated on (the translation maps
+`os.path.isabs` to the model of `posixpath.isabs`) -/
+def osPathIsPosixpath : Bool := {"true" if _os.path is _pp else "false"}
+
+"""
+    return emit("Paths", [SAFE_JOIN], imports=["WzVerif.Model.Paths"], extra=extra)
